@@ -2,7 +2,7 @@
 from ..srules import S, find_values, unbyref, contains_value
 from ..guard import PROVED, VIOLATION, UNDECIDED
 from ..sym import strip_sites
-from . import txn
+from . import recheck, txn
 
 EXPLANATION = (
     "Decides that in the deletion handler every call that removes or marks something (remove_by_id, "
@@ -30,6 +30,7 @@ def is_lmdb_write(n, callee, base, info):
 
 def run(ctx):
     s = S(ctx)
+    recheck.address_scans_author_scoped(ctx, s)
     fn = ctx.fn(HANDLER)
     an = ctx.E.an(fn)
     # anchors
